@@ -481,6 +481,20 @@ func utf8Facts(fd protoreflect.FieldDescriptor) (syn, hasm, val string) {
 	return syn, "0", "0"
 }
 
+// utf8WantEnforce states the property's own notion of "requires UTF-8 validation", independently of
+// strs.EnforceUTF8: proto3, or editions with utf8_validation = VERIFY; under -tags protolegacy the
+// resolved feature / enforce_utf8 option decides for proto2 and proto3 as well.
+func utf8WantEnforce(fd protoreflect.FieldDescriptor) bool {
+	v, hasV := fd.(interface{ EnforceUTF8() bool })
+	switch {
+	case fd.Syntax() == protoreflect.Editions && hasV:
+		return v.EnforceUTF8()
+	case flags.ProtoLegacy && hasV:
+		return v.EnforceUTF8()
+	}
+	return fd.Syntax() == protoreflect.Proto3
+}
+
 func utf8Value(kind int, bs []byte) protoreflect.Value {
 	if kind == 0 {
 		return protoreflect.ValueOfString(string(bs))
@@ -834,8 +848,11 @@ func utf8CheckPosition(c *Ctx, p utf8Position, bs []byte) {
 	syn, hasm, val := utf8Facts(p.pfd)
 	msyn, mhasm, mval := utf8Facts(p.fd)
 	valid := utf8.Valid(bs)
-	enfSelf := strs.EnforceUTF8(p.pfd)
-	enfMap := strs.EnforceUTF8(p.fd)
+	enfSelf := utf8WantEnforce(p.pfd)
+	enfMap := utf8WantEnforce(p.fd)
+	if enfSelf != strs.EnforceUTF8(p.pfd) {
+		c.PropFail("C13", "strs.EnforceUTF8 disagrees with the rule proto3 / editions VERIFY", p.name, Tok(enfSelf))
+	}
 	for codec := 0; codec <= utf8CTextUnmarshalRaw; codec++ {
 		obs := utf8RunCodec(c, p, codec, bs)
 		if obs == nil {
@@ -1026,7 +1043,7 @@ func utf8Nested(c *Ctx) {
 						}()
 						c.Case("utf8", "pos", []string{HexN(uint64(codec)), HexN(uint64(p.kind)), HexN(uint64(p.pos)), legacy, syn, hasm, val, msyn, mhasm, mval, HexB(bs)}, obs)
 						c.Stat(fmt.Sprintf("nested:lazyfield%s:nolazy%s:%s", Tok(lazy), Tok(nolazy), strings.SplitN(obs[0], ":", 2)[0]))
-						enf := strs.EnforceUTF8(p.pfd)
+						enf := utf8WantEnforce(p.pfd)
 						valid := utf8.Valid(bs)
 						unchanged := obs[0] == "ok" && len(obs) == 2 && obs[1] == HexB(bs)
 						in := []string{string(f.FullName()) + " -> " + p.name, fmt.Sprintf("nolazy=%v", nolazy), HexB(w), strings.Join(obs, " ")}
